@@ -3930,6 +3930,7 @@ impl<'a> CodeGenerator<'a> {
 
                     let interner_before = self.interner.counter();
                     let id_gen_before = self.id_gen.current();
+                    let used_funcs_before = self.special_functions.used_funcs.clone();
 
                     let definition = self
                         .constants
@@ -3968,6 +3969,12 @@ impl<'a> CodeGenerator<'a> {
                     // certain; anything else (which shouldn't happen for a
                     // module constant) is recompiled per reference as before.
                     if let Term::Constant(constant) = &term {
+                        // The special functions the definition needed were applied to
+                        // (and evaluated away with) the constant's own program above:
+                        // the referencing program only sees the resulting value, exactly
+                        // as it does on a cache hit.
+                        self.special_functions.used_funcs = used_funcs_before;
+
                         let cached = CachedConstant {
                             constant: constant.as_ref().deep_clone(),
                             interner_delta: self.interner.counter() - interner_before,
